@@ -125,6 +125,13 @@ fn risky(n: int) -> int { if n < 0 { throw("negative input"); } n * 2 }
 fn guarded2(n: int) -> int { try { return risky(n); } catch e { return 0 - 1; } }
 fn outer2(n: int) -> int { try { try { return risky(n) + 1; } catch e { return 999; } } catch e2 { return 99; } }
 fn in_loop(n: int) -> int { for i in 0..3 { try { return risky(n - i); } catch e { calls += 0; } } 0 - 7 }
+let store: [int] = [];
+let cfg = new { v: 0 };
+fn clear2() -> int { let e: [int] = []; store = e; store.len() }
+fn fill(n: int) -> int { let fresh: [int] = []; store = fresh; let i = 0; while i < n { fresh.push(i); i += 1; } store.len() }
+fn size() -> int { store.len() }
+fn configure(v: int) -> int { let c = new { v: 0 }; cfg = c; c.v = v; cfg.v }
+fn configured() -> int { cfg.v }
 fn main() {}
 `
 	i := func(v int64) hs.WV { return hs.WV{V: hs.IntV(v)} }
@@ -147,6 +154,10 @@ fn main() {}
 		{"outer2", arg(-1), hs.IntV(999), hs.TInt}, {"outer2", arg(2), hs.IntV(5), hs.TInt},
 		{"in_loop", arg(-1), hs.IntV(-7), hs.TInt}, {"in_loop", arg(1), hs.IntV(2), hs.TInt},
 		{"count", nil, hs.IntV(4), hs.TInt}, {"guarded2", arg(-1), hs.IntV(-1), hs.TInt}, {"tick", arg(9), hs.IntV(10), hs.TInt},
+		// a global assigned a container that EQUALS its current value is that container from then on
+		{"clear2", nil, hs.IntV(0), hs.TInt}, {"fill", arg(2), hs.IntV(2), hs.TInt}, {"size", nil, hs.IntV(2), hs.TInt},
+		{"clear2", nil, hs.IntV(0), hs.TInt}, {"fill", arg(3), hs.IntV(3), hs.TInt}, {"size", nil, hs.IntV(3), hs.TInt},
+		{"configure", arg(7), hs.IntV(7), hs.TInt}, {"configured", nil, hs.IntV(7), hs.TInt}, {"configure", arg(0), hs.IntV(0), hs.TInt}, {"configure", arg(5), hs.IntV(5), hs.TInt}, {"configured", nil, hs.IntV(5), hs.TInt},
 	}
 	c := Case{ProgCase: px.ProgCase{Modules: map[string]string{"main": prog}, Entry: "main", Limits: sb.DefaultLimits()}}
 	for _, cl := range calls {
